@@ -23,6 +23,7 @@ ap.add_argument("--files", default="")
 ap.add_argument("--out", default="/var/tmp/mutsweep-out")
 ap.add_argument("--seed", type=int, default=1)
 ap.add_argument("--work", default="/var/tmp/mutsweep-work")
+ap.add_argument("--retry", default="", help="results.jsonl of an earlier sweep: re-evaluate its missed / detected-no-input / package-only kills")
 args = ap.parse_args()
 
 env = dict(os.environ, GOFLAGS="-mod=mod", GOPROXY="off", GOSUMDB="off", GOTOOLCHAIN="local")
@@ -91,6 +92,21 @@ for f in files:
     for s in json.loads(sh([mut, "-file", "/repo/" + f, "-list"], "/repo").stdout or "[]") or []:
         s["file"] = f
         sites.append(s)
+if args.retry:
+    want = []
+    for l in open(args.retry):
+        d = json.loads(l)
+        pkgonly = d["status"] == "killed-by-tests" and all(x.startswith("PKG") for x in d.get("tests", []))
+        if d["status"] in ("missed", "detected-no-input") or pkgonly:
+            want.append((d["file"], d["func"], d["kind"], d["frm"], d["to"]))
+    pool, chosen = list(sites), []
+    for w in want:
+        for s_ in pool:
+            if (s_["file"], s_["func"], s_["kind"], s_["from"][:80], s_["to"][:80]) == w:
+                chosen.append(s_)
+                pool.remove(s_)
+                break
+    sites = chosen
 rnd = random.Random(args.seed)
 rnd.shuffle(sites)
 if args.sample:
